@@ -2,6 +2,7 @@ package main
 
 import (
 	"fmt"
+	"sort"
 	"go/constant"
 	"go/token"
 	"go/types"
@@ -955,6 +956,7 @@ func (vc *FuncVC) typeID(t types.Type) Term {
 		id = len(vc.typeIDs) + 1
 		vc.typeIDs[key] = id
 	}
+	vc.concreteTypes[id] = t
 	return IntLit(int64(id))
 }
 
@@ -1019,7 +1021,36 @@ func (vc *FuncVC) ifaceID(t types.Type) Term {
 		id = len(vc.typeIDs) + 1
 		vc.typeIDs[key] = id
 	}
+	vc.ifaceTypes[id] = t
 	return IntLit(int64(id))
+}
+
+// implementsFacts: for every concrete type and interface type met so far, whether the
+// type's method set satisfies the interface (decided by go/types).
+func (vc *FuncVC) implementsFacts() []string {
+	var out []string
+	if len(vc.ifaceTypes) == 0 {
+		return nil
+	}
+	f := vc.declFun("implements", []string{SInt, SInt}, SBool)
+	for cid, ct := range vc.concreteTypes {
+		if _, isIface := ct.Underlying().(*types.Interface); isIface {
+			continue
+		}
+		for iid, it := range vc.ifaceTypes {
+			iface, ok := it.Underlying().(*types.Interface)
+			if !ok {
+				continue
+			}
+			v := "false"
+			if types.Implements(ct, iface) {
+				v = "true"
+			}
+			out = append(out, fmt.Sprintf("(assert (= (%s %d %d) %s))", f, cid, iid, v))
+		}
+	}
+	sort.Strings(out)
+	return out
 }
 
 // ---------- strings, slices, maps ----------
